@@ -8,8 +8,19 @@
      - a select with a `default:` (never blocks), or
      - a select whose comm clauses contain a receive from EVERY stop alternative of that goroutine, or
      - a go statement (does not block), or
-     - listed, together with the function it occurs in, in an explicit exception list (justified where the list is defined).
+     - listed in an explicit exception list (justified where the list is defined).
    A plain `<-ch` / `ch <- v` / `for range ch` / unclassified range / blocking call is never acceptable by itself.
+
+   Nothing below names an unexported function or method.  What is relied upon: the package paths, the exported constructors
+   (`New`, `NewSimple`), the expressions the operations are about (receiver and field names: `dsc.err`, `smpl.priority.Stop`,
+   ...) and the constant `defaultIdleDelay`.
+     - Goroutine entries are DERIVED from the facts: the discipline goroutine of a package is the target of the one and only go
+       statement of its constructor ([ctor_goroutine]); the further goroutines of Simple are the go targets transitively
+       reachable from that goroutine ([goroutines], certified by [gos_within]).
+     - Exceptions are keyed by the OPERATION and a structural [place]: [Anywhere] in the goroutine, or [InEntry] = only in the
+       entry function of a goroutine that is started by exactly one go statement of the package and never called.
+   A behaviour preserving rename of an internal function (main -> run, loop -> serve, handler -> worker, ...) therefore leaves
+   the three theorems valid; removing a stop alternative, or calling the inner GracefulStop inline (defect D5), does not.
 
    Build (in this directory):
      coqc -Q . Cqos BlockTypes.v && coqc -Q . Cqos BlockFacts.v && coqc -Q . Cqos StopAlts.v *)
@@ -191,71 +202,179 @@ Proof.
   - intros _. apply st_go.
 Qed.
 
-Definition exceptions := list (string * op).
+(* ------------------------------------------------------------------------------------------------------------------------- *)
+(* goroutine entries, derived from the facts *)
 
-Definition exc_mem (n : string) (o : op) (exc : exceptions) : bool :=
-  existsb (fun e => String.eqb (fst e) n && op_eqb (snd e) o) exc.
+(* the goroutine that the constructor [ctor] starts: the constructor has exactly one go statement, this is its target *)
+Definition ctor_goroutine (p : package) (ctor : string) : option string :=
+  match find_func p ctor with
+  | Some f => match fn_gos f with [g] => Some g | _ => None end
+  | None => None
+  end.
 
-Lemma exc_mem_In n o exc : exc_mem n o exc = true -> In (n, o) exc.
+Lemma ctor_goroutine_spec p ctor g :
+  ctor_goroutine p ctor = Some g -> exists f, find_func p ctor = Some f /\ fn_gos f = [g].
 Proof.
-  unfold exc_mem. rewrite existsb_exists. intros [[n' o'] [Hin H]]. simpl in H. apply andb_true_iff in H. destruct H as [H1 H2].
-  apply String.eqb_eq in H1. apply op_eqb_eq in H2. subst. exact Hin.
+  unfold ctor_goroutine. destruct (find_func p ctor) as [f|]; [|discriminate].
+  destruct (fn_gos f) as [|g' [|? ?]] eqn:E; try discriminate. intros H. inversion H; subst. exists f. split; [reflexivity|exact E].
 Qed.
 
-Definition op_ok (alts : list string) (exc : exceptions) (n : string) (o : op) : bool :=
-  stoppable_by alts o || exc_mem n o exc.
+(* the goroutine [entry] is started by exactly one go statement of the package and is never called as a plain function *)
+Definition started_once (p : package) (entry : string) : bool :=
+  Nat.eqb (List.length (filter (String.eqb entry) (flat_map fn_gos (pkg_funcs p)))) 1 &&
+  negb (existsb (fun f => mem entry (fn_calls f)) (pkg_funcs p)).
+
+Lemma started_once_never_called p entry :
+  started_once p entry = true -> forall f, In f (pkg_funcs p) -> ~ In entry (fn_calls f).
+Proof.
+  unfold started_once. intros H f Hf Hin. apply andb_true_iff in H. destruct H as [_ H]. apply negb_true_iff in H.
+  assert (existsb (fun f => mem entry (fn_calls f)) (pkg_funcs p) = true) as E.
+  { apply existsb_exists. exists f. split; [exact Hf|]. apply mem_In. exact Hin. }
+  congruence.
+Qed.
+
+(* the go targets of the functions that the goroutine [entry] runs *)
+Definition gos_from (p : package) (entry : string) : list string := flat_map (gos_of p) (reachable p entry).
+
+(* the goroutines started, transitively, by the goroutine [entry] (itself included): work list with fuel; [gos_within] below
+   certifies the result *)
+Fixpoint spawn (p : package) (fuel : nat) (work seen : list string) : list string :=
+  match fuel with
+  | O => seen
+  | S f =>
+      match work with
+      | [] => seen
+      | g :: rest =>
+          if mem g seen then spawn p f rest seen
+          else spawn p f (gos_from p g ++ rest) (g :: seen)
+      end
+  end.
+
+Definition goroutines (p : package) (entry : string) : list string := rev (spawn p (fuel_of p) [entry] []).
+
+(* the goroutines started (transitively) by the goroutines [entries] are among [entries]: none is overlooked *)
+Definition gos_within (p : package) (entries : list string) : bool :=
+  forallb (fun e => forallb (fun n => forallb (fun g => mem g entries) (gos_of p n)) (reachable p e)) entries.
+
+(* the computed call closure of [e] contains e and is closed: it is sound for [reaches] *)
+Definition reach_ok (p : package) (e : string) : bool :=
+  let rs := reachable p e in mem e rs && closed p rs.
+
+Lemma reach_ok_sound p e : reach_ok p e = true -> forall n, reaches p e n -> In n (reachable p e).
+Proof.
+  unfold reach_ok. intros H n Hr. apply andb_true_iff in H. destruct H as [H1 H2]. exact (closed_sound p _ e H1 H2 n Hr).
+Qed.
+
+Inductive spawns (p : package) (a : string) : string -> Prop :=
+| spawns_refl : spawns p a a
+| spawns_step b n g : spawns p a b -> reaches p b n -> In g (gos_of p n) -> spawns p a g.
+
+Lemma gos_within_sound p gs a :
+  In a gs -> forallb (reach_ok p) gs = true -> gos_within p gs = true -> forall g, spawns p a g -> In g gs.
+Proof.
+  intros Ha Hok Hw g Hs. induction Hs as [|b n g Hs IH Hr Hg]; [exact Ha|].
+  rewrite forallb_forall in Hok. pose proof (reach_ok_sound p b (Hok b IH) n Hr) as Hn.
+  unfold gos_within in Hw. rewrite forallb_forall in Hw. specialize (Hw b IH).
+  rewrite forallb_forall in Hw. specialize (Hw n Hn). rewrite forallb_forall in Hw. apply mem_In. apply Hw. exact Hg.
+Qed.
+
+(* ------------------------------------------------------------------------------------------------------------------------- *)
+(* exceptions: keyed by the operation and a structural place, never by the name of a function *)
+
+Inductive place :=
+| Anywhere    (* in any function that the goroutine runs *)
+| InEntry.    (* only in the entry function of the goroutine, and only if the goroutine is started by exactly one go statement
+                 of the package and its entry function is never called ([started_once]) *)
+
+Definition exceptions := list (place * op).
+
+Definition place_ok (p : package) (entry n : string) (pl : place) : bool :=
+  match pl with
+  | Anywhere => true
+  | InEntry => String.eqb n entry && started_once p entry
+  end.
+
+(* operation [o], occurring in function [n] of the goroutine [entry], is excepted *)
+Definition exc_mem (p : package) (entry n : string) (o : op) (exc : exceptions) : bool :=
+  existsb (fun e => op_eqb (snd e) o && place_ok p entry n (fst e)) exc.
+
+Definition excepted (p : package) (entry n : string) (o : op) (exc : exceptions) : Prop :=
+  In (Anywhere, o) exc \/ (In (InEntry, o) exc /\ n = entry /\ started_once p entry = true).
+
+Lemma exc_mem_sound p entry n o exc : exc_mem p entry n o exc = true -> excepted p entry n o exc.
+Proof.
+  unfold exc_mem. rewrite existsb_exists. intros [[pl o'] [Hin H]]. simpl in H. apply andb_true_iff in H. destruct H as [H1 H2].
+  apply op_eqb_eq in H1. subst o'. destruct pl; simpl in H2.
+  - left. exact Hin.
+  - right. apply andb_true_iff in H2. destruct H2 as [H2 H3]. apply String.eqb_eq in H2. auto.
+Qed.
+
+Definition op_ok (p : package) (entry : string) (alts : list string) (exc : exceptions) (n : string) (o : op) : bool :=
+  stoppable_by alts o || exc_mem p entry n o exc.
 
 (* the goroutine that starts at [entry]: every operation of every reachable function is stoppable or excepted *)
 Definition check_entry (p : package) (entry : string) (alts : list string) (exc : exceptions) : bool :=
   let rs := reachable p entry in
   nodupb (names p) && mem entry rs && closed p rs &&
   forallb (fun n => match find_func p n with
-                    | Some f => forallb (op_ok alts exc n) (fn_ops f)
+                    | Some f => forallb (op_ok p entry alts exc n) (fn_ops f)
                     | None => false
                     end) rs.
 
 (* readable statements *)
 Definition entry_stoppable (p : package) (entry : string) (alts : list string) (exc : exceptions) : Prop :=
   forall n, reaches p entry n ->
-  exists f, find_func p n = Some f /\ forall o, In o (fn_ops f) -> stoppable alts o \/ In (n, o) exc.
+  exists f, find_func p n = Some f /\ forall o, In o (fn_ops f) -> stoppable alts o \/ excepted p entry n o exc.
+
+(* the same over the computed list and the functions of the table (no function of the table is shadowed by another one) *)
+Definition entry_stoppable_list (p : package) (entry : string) (alts : list string) (exc : exceptions) : Prop :=
+  forall f o, In f (pkg_funcs p) -> In (fn_name f) (reachable p entry) -> In o (fn_ops f) ->
+    stoppable alts o \/ excepted p entry (fn_name f) o exc.
+
+Definition entry_checked (p : package) (entry : string) (alts : list string) (exc : exceptions) : Prop :=
+  entry_stoppable p entry alts exc /\ entry_stoppable_list p entry alts exc.
+
+Lemma op_ok_sound p entry alts exc n o : op_ok p entry alts exc n o = true -> stoppable alts o \/ excepted p entry n o exc.
+Proof.
+  unfold op_ok. intros H. apply orb_true_iff in H. destruct H as [Hs|He].
+  - left. apply stoppable_by_sound. exact Hs.
+  - right. apply exc_mem_sound. exact He.
+Qed.
+
+Lemma check_entry_reach_ok p entry alts exc : check_entry p entry alts exc = true -> reach_ok p entry = true.
+Proof.
+  unfold check_entry, reach_ok. intros H. destruct (andb_prop _ _ H) as [H1 _]. destruct (andb_prop _ _ H1) as [H2 Hclosed].
+  destruct (andb_prop _ _ H2) as [_ Hentry]. cbv zeta. rewrite Hentry, Hclosed. reflexivity.
+Qed.
 
 Lemma check_entry_sound p entry alts exc :
   check_entry p entry alts exc = true -> entry_stoppable p entry alts exc.
 Proof.
-  unfold check_entry. intros H. destruct (andb_prop _ _ H) as [H1 Hall]. destruct (andb_prop _ _ H1) as [H2 Hclosed].
-  destruct (andb_prop _ _ H2) as [_ Hentry].
-  intros n Hr. pose proof (closed_sound p _ entry Hentry Hclosed n Hr) as Hin.
+  intros H n Hr. pose proof (reach_ok_sound p entry (check_entry_reach_ok _ _ _ _ H) n Hr) as Hin.
+  unfold check_entry in H. destruct (andb_prop _ _ H) as [_ Hall].
   rewrite forallb_forall in Hall. specialize (Hall n Hin).
   destruct (find_func p n) as [f|]; [|discriminate]. exists f. split; [reflexivity|].
-  intros o Ho. rewrite forallb_forall in Hall. specialize (Hall o Ho). unfold op_ok in Hall.
-  apply orb_true_iff in Hall. destruct Hall as [Hs|He].
-  - left. apply stoppable_by_sound. exact Hs.
-  - right. apply exc_mem_In. exact He.
+  intros o Ho. rewrite forallb_forall in Hall. apply op_ok_sound. exact (Hall o Ho).
 Qed.
 
-(* the same over the computed list and the functions of the table *)
 Lemma check_entry_list p entry alts exc :
-  check_entry p entry alts exc = true ->
-  forall f o, In f (pkg_funcs p) -> In (fn_name f) (reachable p entry) -> In o (fn_ops f) ->
-    stoppable alts o \/ In (fn_name f, o) exc.
+  check_entry p entry alts exc = true -> entry_stoppable_list p entry alts exc.
 Proof.
   unfold check_entry. intros H. destruct (andb_prop _ _ H) as [H1 Hall]. destruct (andb_prop _ _ H1) as [H2 _].
   destruct (andb_prop _ _ H2) as [Hnd _]. intros f o Hf Hin Ho.
   rewrite forallb_forall in Hall. specialize (Hall _ Hin).
   rewrite (find_func_In p f (nodupb_NoDup _ Hnd) Hf) in Hall.
-  rewrite forallb_forall in Hall. specialize (Hall o Ho). unfold op_ok in Hall.
-  apply orb_true_iff in Hall. destruct Hall as [Hs|He].
-  - left. apply stoppable_by_sound. exact Hs.
-  - right. apply exc_mem_In. exact He.
+  rewrite forallb_forall in Hall. apply op_ok_sound. exact (Hall o Ho).
 Qed.
+
+Lemma check_entry_checked p entry alts exc :
+  check_entry p entry alts exc = true -> entry_checked p entry alts exc.
+Proof. intros H. split; [apply check_entry_sound|apply check_entry_list]; exact H. Qed.
 
 (* and: the computed list is exactly sound for the inductive relation *)
 Lemma check_entry_reachable p entry alts exc :
   check_entry p entry alts exc = true -> forall n, reaches p entry n -> In n (reachable p entry).
-Proof.
-  unfold check_entry. intros H. destruct (andb_prop _ _ H) as [H1 _]. destruct (andb_prop _ _ H1) as [H2 Hclosed].
-  destruct (andb_prop _ _ H2) as [_ Hentry]. intros n Hr. exact (closed_sound p _ entry Hentry Hclosed n Hr).
-Qed.
+Proof. intros H. apply reach_ok_sound. exact (check_entry_reach_ok _ _ _ _ H). Qed.
 
 (* ------------------------------------------------------------------------------------------------------------------------- *)
 (* side conditions of the exceptions, read off the extra facts *)
@@ -283,33 +402,76 @@ Definition makes_of (p : package) (target : string) : list (string * string * st
 Definition pair_eqb (a b : string * string) : bool := String.eqb (fst a) (fst b) && String.eqb (snd a) (snd b).
 Definition triple_eqb (a b : string * string * string) : bool := pair_eqb (fst a) (fst b) && String.eqb (snd a) (snd b).
 
+Lemma pair_eqb_eq a b : pair_eqb a b = true -> a = b.
+Proof.
+  destruct a, b. unfold pair_eqb. simpl. intros H. apply andb_true_iff in H. destruct H as [H1 H2].
+  apply String.eqb_eq in H1. apply String.eqb_eq in H2. congruence.
+Qed.
+
+Lemma triple_eqb_eq a b : triple_eqb a b = true -> a = b.
+Proof.
+  destruct a as [a1 a2], b as [b1 b2]. unfold triple_eqb. simpl. intros H. apply andb_true_iff in H. destruct H as [H1 H2].
+  apply pair_eqb_eq in H1. apply String.eqb_eq in H2. congruence.
+Qed.
+
 Definition has_const (p : package) (name value : string) : bool :=
   existsb (fun c => pair_eqb c (name, value)) (pkg_consts p).
 
-(* the goroutine [entry] is started by exactly one go statement of the package and is never called as a plain function *)
-Definition started_once (p : package) (entry : string) : bool :=
-  Nat.eqb (List.length (filter (String.eqb entry) (flat_map fn_gos (pkg_funcs p)))) 1 &&
-  negb (existsb (fun f => mem entry (fn_calls f)) (pkg_funcs p)).
+Definition count_pair (a : string * string) (l : list (string * string)) : nat := List.length (filter (pair_eqb a) l).
 
-(* the goroutines started (transitively) by the goroutines [entries] are among [entries]: none is overlooked *)
-Definition gos_within (p : package) (entries : list string) : bool :=
-  forallb (fun e => forallb (fun n => forallb (fun g => mem g entries) (gos_of p n)) (reachable p e)) entries.
+(* The 1-buffered error channels of package priority (Discipline.err, Simple.err), without a function name:
+   - the sends of the whole package (plain or in a select) to a channel expression `*.err` are exactly two: one to `dsc.err` in
+     the entry function of the goroutine that New starts, one to `smpl.err` in the entry function of the goroutine that
+     NewSimple starts;
+   - the `make(chan ...)` assigned to a variable / field `err` are exactly `make(chan error, 1)` in New and in NewSimple;
+   - both goroutines are started by exactly one go statement and their entry functions are never called. *)
+Definition err_channels_ok (p : package) : bool :=
+  match ctor_goroutine p "New", ctor_goroutine p "NewSimple" with
+  | Some e1, Some e2 =>
+      let sends := sends_matching p ".err" in
+      forallb (fun s => pair_eqb s (e1, "dsc.err") || pair_eqb s (e2, "smpl.err")) sends &&
+      Nat.eqb (count_pair (e1, "dsc.err") sends) 1 && Nat.eqb (count_pair (e2, "smpl.err") sends) 1 &&
+      list_eqb triple_eqb (makes_of p "err") [("New", "err", "make(chan error, 1)"); ("NewSimple", "err", "make(chan error, 1)")] &&
+      started_once p e1 && started_once p e2
+  | _, _ => false
+  end.
+
+Definition err_channels_statement (p : package) : Prop :=
+  exists e1 e2, ctor_goroutine p "New" = Some e1 /\ ctor_goroutine p "NewSimple" = Some e2 /\
+    (forall s, In s (sends_matching p ".err") -> s = (e1, "dsc.err") \/ s = (e2, "smpl.err")) /\
+    count_pair (e1, "dsc.err") (sends_matching p ".err") = 1 /\ count_pair (e2, "smpl.err") (sends_matching p ".err") = 1 /\
+    makes_of p "err" = [("New", "err", "make(chan error, 1)"); ("NewSimple", "err", "make(chan error, 1)")] /\
+    started_once p e1 = true /\ started_once p e2 = true.
+
+Lemma err_channels_ok_sound p : err_channels_ok p = true -> err_channels_statement p.
+Proof.
+  unfold err_channels_ok, err_channels_statement.
+  destruct (ctor_goroutine p "New") as [e1|]; [|discriminate]. destruct (ctor_goroutine p "NewSimple") as [e2|]; [|discriminate].
+  cbv zeta. intros H. destruct (andb_prop _ _ H) as [H1 Hs2]. destruct (andb_prop _ _ H1) as [H2 Hs1].
+  destruct (andb_prop _ _ H2) as [H3 Hmk]. destruct (andb_prop _ _ H3) as [H4 Hc2]. destruct (andb_prop _ _ H4) as [Hall Hc1].
+  exists e1, e2. repeat split; auto.
+  - intros s Hin. rewrite forallb_forall in Hall. specialize (Hall s Hin). apply orb_true_iff in Hall.
+    destruct Hall as [E|E]; apply pair_eqb_eq in E; auto.
+  - apply Nat.eqb_eq. exact Hc1.
+  - apply Nat.eqb_eq. exact Hc2.
+  - exact (list_eqb_eq triple_eqb triple_eqb_eq _ _ Hmk).
+Qed.
 
 (* ------------------------------------------------------------------------------------------------------------------------- *)
-(* 1. package priority, the discipline goroutine Discipline.main
+(* 1. package priority, the discipline goroutine = the goroutine that New starts
 
-   Rule: every operation of every function reachable from Discipline.main is a select with a default, or a select with BOTH
+   Rule: every operation of every function that this goroutine runs is a select with a default, or a select with BOTH
    `<-dsc.breaker.IsBreaked()` and `<-dsc.opts.Ctx.Done()`, or one of:
 
-   - Discipline.loop: time.Sleep(defaultIdleDelay).  Bounded: the argument is the package constant defaultIdleDelay, checked
-     below to be `1 * time.Nanosecond`; the sleep is followed by the loop's first select, which has the stop alternatives.
-   - Discipline.main: dsc.interrupter.Stop() (deferred).  dsc.interrupter is a *time.Ticker; Ticker.Stop does not block
-     (package time: "Stop turns off a ticker", no waiting, no channel operation).
-   - Discipline.main: `dsc.err <- err`, a plain send.  Never blocks: dsc.err is created by `make(chan error, 1)` in New (checked:
-     the only make assigned to a field `err` in New is that one), this is the only send of the package to `dsc.err` (checked:
-     the sends to channels `*.err` are exactly Discipline.main/dsc.err and Simple.main/smpl.err), and Discipline.main runs once
-     per discipline (checked: started by exactly one go statement, never called).  Read off the source, not checked: the send is
-     not inside a loop of main, and nobody outside the package can send (Err() returns a receive-only channel).
+   - anywhere: time.Sleep(defaultIdleDelay).  Bounded: the argument is the package constant defaultIdleDelay, checked below to
+     be `1 * time.Nanosecond`; every wait of the goroutine other than this sleep has the stop alternatives.
+   - anywhere: dsc.interrupter.Stop().  dsc.interrupter is a *time.Ticker; Ticker.Stop does not block (package time: "Stop turns
+     off a ticker", no waiting, no channel operation).
+   - in the entry function only: `dsc.err <- err`, a plain send.  Never blocks: dsc.err is created by `make(chan error, 1)` in
+     New (checked: the only make assigned to a field `err` in New is that one), this is the only send of the package to `dsc.err`
+     (checked: [err_channels_ok]), and the entry function runs once per discipline (checked: the goroutine is started by exactly
+     one go statement, the function is never called).  Read off the source, not checked: the send is not inside a loop of the
+     entry function, and nobody outside the package can send (Err() returns a receive-only channel).
    Not operations in this sense, hence assumptions of the model rather than facts checked here: calls of the user supplied
    Divider (a callback of the discipline goroutine; a Divider that blocks blocks Stop), busy loops (D3 was one: that is the
    Coq model's subject, not this checker's). *)
@@ -317,186 +479,240 @@ Definition gos_within (p : package) (entries : list string) : bool :=
 Definition prio_alts : list string := ["dsc.breaker.IsBreaked()"; "dsc.opts.Ctx.Done()"].
 
 Definition prio_exceptions : exceptions :=
-  [ ("Discipline.loop", BCall "time.Sleep" "defaultIdleDelay");
-    ("Discipline.main", BCall "dsc.interrupter.Stop" "");
-    ("Discipline.main", BSend "dsc.err") ].
-
-Definition err_channels_ok (p : package) : bool :=
-  list_eqb pair_eqb (sends_matching p ".err") [("Discipline.main", "dsc.err"); ("Simple.main", "smpl.err")] &&
-  list_eqb triple_eqb (makes_of p "err") [("New", "err", "make(chan error, 1)"); ("NewSimple", "err", "make(chan error, 1)")] &&
-  started_once p "Discipline.main" && started_once p "Simple.main".
+  [ (Anywhere, BCall "time.Sleep" "defaultIdleDelay");
+    (Anywhere, BCall "dsc.interrupter.Stop" "");
+    (InEntry, BSend "dsc.err") ].
 
 Definition check_v1_priority (fs : list package) : bool :=
   match find_pkg fs "priority" with
   | Some p =>
-      check_entry p "Discipline.main" prio_alts prio_exceptions &&
-      has_const p "defaultIdleDelay" "1 * time.Nanosecond" &&
-      err_channels_ok p &&
-      gos_within p ["Discipline.main"]
+      match ctor_goroutine p "New" with
+      | Some e =>
+          check_entry p e prio_alts prio_exceptions &&
+          has_const p "defaultIdleDelay" "1 * time.Nanosecond" &&
+          err_channels_ok p &&
+          gos_within p [e]
+      | None => false
+      end
   | None => false
   end.
 
 Theorem v1_priority_stoppable : check_v1_priority facts = true.
 Proof. vm_compute; reflexivity. Qed.
 
+(* [e] is the goroutine New starts; it starts no further goroutine; all it runs is stoppable *)
+Definition priority_statement (p : package) (e : string) : Prop :=
+  ctor_goroutine p "New" = Some e /\
+  entry_checked p e prio_alts prio_exceptions /\
+  (forall g, spawns p e g -> g = e) /\
+  has_const p "defaultIdleDelay" "1 * time.Nanosecond" = true /\
+  err_channels_statement p.
+
 Lemma check_v1_priority_sound fs :
-  check_v1_priority fs = true ->
-  exists p, find_pkg fs "priority" = Some p /\
-    entry_stoppable p "Discipline.main" prio_alts prio_exceptions /\
-    (forall f o, In f (pkg_funcs p) -> In (fn_name f) (reachable p "Discipline.main") -> In o (fn_ops f) ->
-       stoppable prio_alts o \/ In (fn_name f, o) prio_exceptions).
+  check_v1_priority fs = true -> exists p e, find_pkg fs "priority" = Some p /\ priority_statement p e.
 Proof.
   unfold check_v1_priority. destruct (find_pkg fs "priority") as [p|]; [|discriminate].
-  intros H. destruct (andb_prop _ _ H) as [H1 _]. destruct (andb_prop _ _ H1) as [H2 _]. destruct (andb_prop _ _ H2) as [H3 _].
-  exists p. split; [reflexivity|]. split; [apply check_entry_sound|apply check_entry_list]; exact H3.
+  destruct (ctor_goroutine p "New") as [e|] eqn:He; [|discriminate].
+  intros H. destruct (andb_prop _ _ H) as [H1 Hw]. destruct (andb_prop _ _ H1) as [H2 Herr]. destruct (andb_prop _ _ H2) as [H3 Hc].
+  exists p, e. split; [reflexivity|]. unfold priority_statement. repeat split; auto.
+  - apply check_entry_sound. exact H3.
+  - apply check_entry_list. exact H3.
+  - intros g Hs. assert (In g [e]) as Hin.
+    { apply (gos_within_sound p [e] e); [left; reflexivity| |exact Hw|exact Hs].
+      simpl. rewrite (check_entry_reach_ok _ _ _ _ H3). reflexivity. }
+    destruct Hin as [<-|[]]. reflexivity.
+  - apply err_channels_ok_sound. exact Herr.
 Qed.
 
 (* the readable statement *)
-Corollary v1_priority_stoppable_prop :
-  exists p, find_pkg facts "priority" = Some p /\
-    entry_stoppable p "Discipline.main" prio_alts prio_exceptions /\
-    (forall f o, In f (pkg_funcs p) -> In (fn_name f) (reachable p "Discipline.main") -> In o (fn_ops f) ->
-       stoppable prio_alts o \/ In (fn_name f, o) prio_exceptions).
+Corollary v1_priority_stoppable_prop : exists p e, find_pkg facts "priority" = Some p /\ priority_statement p e.
 Proof. exact (check_v1_priority_sound facts v1_priority_stoppable). Qed.
 
 (* ------------------------------------------------------------------------------------------------------------------------- *)
-(* 2. package join, the join goroutine Discipline.main
+(* 2. package join, the join goroutine = the goroutine that New starts
 
-   Rule: every operation of every function reachable from Discipline.main is a select with a default, or a select with BOTH
-   `<-dsc.breaker.IsBreaked()` and `<-dsc.opts.Ctx.Done()` (join/join.go: loop, loopUntimeouted, and both selects of send), or:
+   Rule: every operation of every function that this goroutine runs is a select with a default, or a select with BOTH
+   `<-dsc.breaker.IsBreaked()` and `<-dsc.opts.Ctx.Done()` (join/join.go: the two loops and both selects of send), or:
 
-   - Discipline.loop: ticker.Stop() (deferred).  ticker is the local *time.Ticker made by time.NewTicker in loop; Ticker.Stop
-     does not block. *)
+   - anywhere: ticker.Stop().  ticker is the local *time.Ticker made by time.NewTicker; Ticker.Stop does not block. *)
 
 Definition join_alts : list string := ["dsc.breaker.IsBreaked()"; "dsc.opts.Ctx.Done()"].
 
 Definition join_exceptions : exceptions :=
-  [ ("Discipline.loop", BCall "ticker.Stop" "") ].
+  [ (Anywhere, BCall "ticker.Stop" "") ].
 
 Definition check_v1_join (fs : list package) : bool :=
   match find_pkg fs "join" with
   | Some p =>
-      check_entry p "Discipline.main" join_alts join_exceptions &&
-      started_once p "Discipline.main" &&
-      gos_within p ["Discipline.main"]
+      match ctor_goroutine p "New" with
+      | Some e =>
+          check_entry p e join_alts join_exceptions &&
+          started_once p e &&
+          gos_within p [e]
+      | None => false
+      end
   | None => false
   end.
 
 Theorem v1_join_stoppable : check_v1_join facts = true.
 Proof. vm_compute; reflexivity. Qed.
 
+Definition join_statement (p : package) (e : string) : Prop :=
+  ctor_goroutine p "New" = Some e /\
+  entry_checked p e join_alts join_exceptions /\
+  (forall g, spawns p e g -> g = e) /\
+  started_once p e = true.
+
 Lemma check_v1_join_sound fs :
-  check_v1_join fs = true ->
-  exists p, find_pkg fs "join" = Some p /\
-    entry_stoppable p "Discipline.main" join_alts join_exceptions /\
-    (forall f o, In f (pkg_funcs p) -> In (fn_name f) (reachable p "Discipline.main") -> In o (fn_ops f) ->
-       stoppable join_alts o \/ In (fn_name f, o) join_exceptions).
+  check_v1_join fs = true -> exists p e, find_pkg fs "join" = Some p /\ join_statement p e.
 Proof.
   unfold check_v1_join. destruct (find_pkg fs "join") as [p|]; [|discriminate].
-  intros H. destruct (andb_prop _ _ H) as [H1 _]. destruct (andb_prop _ _ H1) as [H2 _].
-  exists p. split; [reflexivity|]. split; [apply check_entry_sound|apply check_entry_list]; exact H2.
+  destruct (ctor_goroutine p "New") as [e|] eqn:He; [|discriminate].
+  intros H. destruct (andb_prop _ _ H) as [H1 Hw]. destruct (andb_prop _ _ H1) as [H2 Hso].
+  exists p, e. split; [reflexivity|]. unfold join_statement. repeat split; auto.
+  - apply check_entry_sound. exact H2.
+  - apply check_entry_list. exact H2.
+  - intros g Hs. assert (In g [e]) as Hin.
+    { apply (gos_within_sound p [e] e); [left; reflexivity| |exact Hw|exact Hs].
+      simpl. rewrite (check_entry_reach_ok _ _ _ _ H2). reflexivity. }
+    destruct Hin as [<-|[]]. reflexivity.
 Qed.
 
-Corollary v1_join_stoppable_prop :
-  exists p, find_pkg facts "join" = Some p /\
-    entry_stoppable p "Discipline.main" join_alts join_exceptions /\
-    (forall f o, In f (pkg_funcs p) -> In (fn_name f) (reachable p "Discipline.main") -> In o (fn_ops f) ->
-       stoppable join_alts o \/ In (fn_name f, o) join_exceptions).
+Corollary v1_join_stoppable_prop : exists p e, find_pkg facts "join" = Some p /\ join_statement p e.
 Proof. exact (check_v1_join_sound facts v1_join_stoppable). Qed.
 
 (* ------------------------------------------------------------------------------------------------------------------------- *)
 (* 3. package priority, the goroutines of Simple
 
-   Three goroutine entries (checked: the go statements reachable from them start nothing else):
+   The main goroutine M = the goroutine that NewSimple starts (in the source: Simple.main, which calls Simple.gracefulStop), and
+   the goroutines that M starts, transitively ([goroutines]; checked: the go statements reachable from them start nothing
+   else).  Every one of the latter must be a HANDLER or a HELPER, as defined below (in the source: Simple.handler, started
+   HandlersQuantity times by the entry function of M, and the `go func() {...}()` of Simple.gracefulStop, whose body the
+   translator makes a function of its own).
 
-   Simple.main (started by NewSimple; calls Simple.gracefulStop).  Stop alternatives: `<-smpl.breaker.IsBreaked()` and
-   `<-smpl.opts.Ctx.Done()`; every select must have both (or a default).  Exceptions, all in the deferred tail of main, which
-   runs only after main's select has returned, i.e. when the discipline is terminating anyway:
+   M.  Stop alternatives: `<-smpl.breaker.IsBreaked()` and `<-smpl.opts.Ctx.Done()`; every select of every function M runs must
+   have both (or a default).  Exceptions, all of them only in the ENTRY function of M (started once, never called); in the
+   source they are in its deferred tail, which runs only after its select has returned, i.e. when the discipline is terminating:
    - smpl.priority.Stop(): Stop of the inner prioritization discipline = breaker.Break(): closes the channel that
-     dsc.breaker.IsBreaked() returns and waits for the inner Discipline.main to call Complete().  Bounded by theorem 1
+     dsc.breaker.IsBreaked() returns and waits for the inner discipline goroutine to call Complete().  Bounded by theorem 1
      (check_v1_priority is a conjunct of this check).  The inner discipline gets no Ctx (context.Background), so this call is
-     the only way it is stopped, and it is reached from every branch of main's select.
+     the only way it is stopped, and it is reached from every branch of the entry function's select.
    - smpl.wg.Wait(): waits for the handler goroutines.  It is deferred BEFORE `defer cancel()` and therefore runs after
-     cancel() (read off the source; the facts do not carry defer order).  Bounded because every blocking operation of
-     Simple.handler is a select with `<-ctx.Done()` (second conjunct below, no exceptions), ctx being the context that cancel()
-     cancels -- and under the documented contract of the callback ("Function should be interrupted when context is canceled"):
-     smpl.opts.Handle(ctx, item) is a user callback, not an operation in the sense of these facts.
-   - `smpl.err <- err`: never blocks; smpl.err is `make(chan error, 1)` in NewSimple, this is the only send to it, Simple.main
-     runs once (err_channels_ok, as for dsc.err).
+     cancel() (read off the source; the facts do not carry defer order).  Bounded because every blocking operation of a
+     handler is a select with `<-ctx.Done()` (below), ctx being the context that cancel() cancels -- and under the documented
+     contract of the callback ("Function should be interrupted when context is canceled"): smpl.opts.Handle(ctx, item) is a
+     user callback, not an operation in the sense of these facts.
+   - `smpl.err <- err`: never blocks; smpl.err is `make(chan error, 1)` in NewSimple, this is the only send to it, the entry
+     function runs once ([err_channels_ok], as for dsc.err).
 
-   Simple.handler (started HandlersQuantity times by Simple.main).  Stop alternative: `<-ctx.Done()`; no exceptions.
+   HANDLER: a goroutine whose every blocking operation is a select with `<-ctx.Done()` (or a default); no exceptions.
 
-   Simple.gracefulStop.func1 (the helper started by Simple.gracefulStop; the translator makes the body of `go func() {...}()` a
-   function of its own).  It has no stop alternative of its own; its only operation is excepted:
-   - smpl.priority.GracefulStop() = graceful.Break() of the inner discipline: returns when the inner Discipline.main has
-     completed (graceful.Complete() is deferred there).  Once Stop()/cancel has been requested, Simple.main leaves the select
-     of gracefulStop (it has both stop alternatives next to `<-stopped`) and its deferred smpl.priority.Stop() terminates the
-     inner discipline within bounded time (theorem 1); then this call returns.  Nobody waits for the helper (Simple.main does
-     not: `stopped` is only read in that select), so it cannot delay Stop().
-     The exception is keyed to the helper: calling smpl.priority.GracefulStop() from Simple.gracefulStop or Simple.main
-     themselves (defect D5) is NOT excepted and fails the check. *)
+   HELPER: a goroutine that
+     - is the target of a go statement of a function that M runs (it is started by M itself),
+     - is NOT started by the entry function of M (the goroutines that the entry function starts are the ones its wg.Wait()
+       waits for: those must be handlers),
+     - has no stop alternative of its own and no blocking operation other than, in its entry function (started once, never
+       called), the excepted
+       smpl.priority.GracefulStop() = graceful.Break() of the inner discipline: returns when the inner discipline goroutine has
+       completed.  Once Stop()/cancel has been requested, M leaves the select next to which the helper was started (it has both
+       stop alternatives, like every select of M) and the deferred smpl.priority.Stop() terminates the inner discipline within
+       bounded time (theorem 1); then this call returns.  Nobody waits for the helper (`stopped` is only read in that select),
+       so it cannot delay Stop().
+     The exception belongs to the helper goroutine only: calling smpl.priority.GracefulStop() in a function that M itself runs
+     (defect D5: inline in Simple.gracefulStop or in Simple.main) or in a handler is NOT excepted and fails the check. *)
 
 Definition simple_main_alts : list string := ["smpl.breaker.IsBreaked()"; "smpl.opts.Ctx.Done()"].
 Definition simple_handler_alts : list string := ["ctx.Done()"].
 Definition simple_helper_alts : list string := [].
 
 Definition simple_main_exceptions : exceptions :=
-  [ ("Simple.main", BCall "smpl.priority.Stop" "");
-    ("Simple.main", BCall "smpl.wg.Wait" "");
-    ("Simple.main", BSend "smpl.err") ].
+  [ (InEntry, BCall "smpl.priority.Stop" "");
+    (InEntry, BCall "smpl.wg.Wait" "");
+    (InEntry, BSend "smpl.err") ].
 
 Definition simple_handler_exceptions : exceptions := [].
 
 Definition simple_helper_exceptions : exceptions :=
-  [ ("Simple.gracefulStop.func1", BCall "smpl.priority.GracefulStop" "") ].
+  [ (InEntry, BCall "smpl.priority.GracefulStop" "") ].
 
-Definition simple_entries : list string := ["Simple.main"; "Simple.handler"; "Simple.gracefulStop.func1"].
+Definition is_handler (p : package) (g : string) : bool :=
+  check_entry p g simple_handler_alts simple_handler_exceptions.
+
+Definition is_helper (p : package) (m g : string) : bool :=
+  check_entry p g simple_helper_alts simple_helper_exceptions && mem g (gos_from p m) && negb (mem g (gos_of p m)).
 
 Definition check_v1_simple (fs : list package) : bool :=
   match find_pkg fs "priority" with
   | Some p =>
-      check_entry p "Simple.main" simple_main_alts simple_main_exceptions &&
-      check_entry p "Simple.handler" simple_handler_alts simple_handler_exceptions &&
-      check_entry p "Simple.gracefulStop.func1" simple_helper_alts simple_helper_exceptions &&
-      gos_within p simple_entries &&
-      err_channels_ok p &&
-      check_v1_priority fs
+      match ctor_goroutine p "NewSimple" with
+      | Some m =>
+          let gs := goroutines p m in
+          check_entry p m simple_main_alts simple_main_exceptions &&
+          forallb (fun g => String.eqb g m || is_handler p g || is_helper p m g) gs &&
+          mem m gs && gos_within p gs &&
+          err_channels_ok p &&
+          check_v1_priority fs
+      | None => false
+      end
   | None => false
   end.
 
 Theorem v1_simple_stoppable : check_v1_simple facts = true.
 Proof. vm_compute; reflexivity. Qed.
 
-Definition simple_statement (p : package) : Prop :=
-  entry_stoppable p "Simple.main" simple_main_alts simple_main_exceptions /\
-  entry_stoppable p "Simple.handler" simple_handler_alts simple_handler_exceptions /\
-  entry_stoppable p "Simple.gracefulStop.func1" simple_helper_alts simple_helper_exceptions /\
-  entry_stoppable p "Discipline.main" prio_alts prio_exceptions /\
-  (forall f o, In f (pkg_funcs p) -> In o (fn_ops f) ->
-     (In (fn_name f) (reachable p "Simple.main") -> stoppable simple_main_alts o \/ In (fn_name f, o) simple_main_exceptions) /\
-     (In (fn_name f) (reachable p "Simple.handler") -> stoppable simple_handler_alts o \/ In (fn_name f, o) simple_handler_exceptions) /\
-     (In (fn_name f) (reachable p "Simple.gracefulStop.func1") -> stoppable simple_helper_alts o \/ In (fn_name f, o) simple_helper_exceptions)).
+Definition handler_statement (p : package) (g : string) : Prop :=
+  entry_checked p g simple_handler_alts simple_handler_exceptions.
+
+Definition helper_statement (p : package) (m g : string) : Prop :=
+  entry_checked p g simple_helper_alts simple_helper_exceptions /\ In g (gos_from p m) /\ ~ In g (gos_of p m).
+
+Definition simple_statement (p : package) (m : string) : Prop :=
+  ctor_goroutine p "NewSimple" = Some m /\
+  entry_checked p m simple_main_alts simple_main_exceptions /\
+  (forall g, spawns p m g -> g = m \/ handler_statement p g \/ helper_statement p m g) /\
+  err_channels_statement p /\
+  (exists e, priority_statement p e).
 
 Lemma check_v1_simple_sound fs :
-  check_v1_simple fs = true -> exists p, find_pkg fs "priority" = Some p /\ simple_statement p.
+  check_v1_simple fs = true -> exists p m, find_pkg fs "priority" = Some p /\ simple_statement p m.
 Proof.
   unfold check_v1_simple. destruct (find_pkg fs "priority") as [p|] eqn:Hp; [|discriminate].
-  intros H. destruct (andb_prop _ _ H) as [H1 Hprio]. destruct (andb_prop _ _ H1) as [H2 _]. destruct (andb_prop _ _ H2) as [H3 _].
-  destruct (andb_prop _ _ H3) as [H4 Hhelper]. destruct (andb_prop _ _ H4) as [Hmain Hhandler].
-  exists p. split; [reflexivity|]. unfold simple_statement.
-  split; [apply check_entry_sound; exact Hmain|].
-  split; [apply check_entry_sound; exact Hhandler|].
-  split; [apply check_entry_sound; exact Hhelper|].
-  split.
-  - destruct (check_v1_priority_sound fs Hprio) as [p' [Hp' [Hs _]]]. rewrite Hp in Hp'. inversion Hp'; subst. exact Hs.
-  - intros f o Hf Ho. repeat split; intros Hin.
-    + exact (check_entry_list _ _ _ _ Hmain f o Hf Hin Ho).
-    + exact (check_entry_list _ _ _ _ Hhandler f o Hf Hin Ho).
-    + exact (check_entry_list _ _ _ _ Hhelper f o Hf Hin Ho).
+  destruct (ctor_goroutine p "NewSimple") as [m|] eqn:Hm; [|discriminate]. cbv zeta.
+  intros H. destruct (andb_prop _ _ H) as [H1 Hprio]. destruct (andb_prop _ _ H1) as [H2 Herr]. destruct (andb_prop _ _ H2) as [H3 Hw].
+  destruct (andb_prop _ _ H3) as [H4 Hmem]. destruct (andb_prop _ _ H4) as [Hmain Hall].
+  exists p, m. split; [reflexivity|]. unfold simple_statement.
+  split; [exact Hm|]. split; [apply check_entry_checked; exact Hmain|]. split; [|split].
+  - rewrite forallb_forall in Hall.
+    assert (forallb (reach_ok p) (goroutines p m) = true) as Hok.
+    { apply forallb_forall. intros g Hg. specialize (Hall g Hg).
+      apply orb_true_iff in Hall. destruct Hall as [Hall|Hhelper].
+      - apply orb_true_iff in Hall. destruct Hall as [E|Hhandler].
+        + apply String.eqb_eq in E. subst g. exact (check_entry_reach_ok _ _ _ _ Hmain).
+        + exact (check_entry_reach_ok _ _ _ _ Hhandler).
+      - unfold is_helper in Hhelper. destruct (andb_prop _ _ Hhelper) as [Hh _]. destruct (andb_prop _ _ Hh) as [Hh' _].
+        exact (check_entry_reach_ok _ _ _ _ Hh'). }
+    intros g Hs. apply mem_In in Hmem. pose proof (gos_within_sound p _ m Hmem Hok Hw g Hs) as Hg.
+    specialize (Hall g Hg). apply orb_true_iff in Hall. destruct Hall as [Hall|Hhelper].
+    + apply orb_true_iff in Hall. destruct Hall as [E|Hhandler].
+      * left. apply String.eqb_eq. exact E.
+      * right. left. apply check_entry_checked. exact Hhandler.
+    + right. right. unfold is_helper in Hhelper. destruct (andb_prop _ _ Hhelper) as [Hh Hnot]. destruct (andb_prop _ _ Hh) as [Hc Hin].
+      split; [apply check_entry_checked; exact Hc|]. split; [apply mem_In; exact Hin|].
+      intros Hbad. apply mem_In in Hbad. rewrite Hbad in Hnot. discriminate.
+  - apply err_channels_ok_sound. exact Herr.
+  - destruct (check_v1_priority_sound fs Hprio) as [p' [e [Hp' Hs]]]. rewrite Hp in Hp'. inversion Hp'; subst. exists e. exact Hs.
 Qed.
 
-Corollary v1_simple_stoppable_prop : exists p, find_pkg facts "priority" = Some p /\ simple_statement p.
+Corollary v1_simple_stoppable_prop : exists p m, find_pkg facts "priority" = Some p /\ simple_statement p m.
 Proof. exact (check_v1_simple_sound facts v1_simple_stoppable). Qed.
+
+(* what the derivation yields on the current source (printed at compile time; not a proof obligation) *)
+Eval vm_compute in (match find_pkg facts "priority" with
+                    | Some p => (ctor_goroutine p "New", ctor_goroutine p "NewSimple",
+                                 match ctor_goroutine p "NewSimple" with Some m => goroutines p m | None => [] end)
+                    | None => (None, None, [])
+                    end).
+Eval vm_compute in (match find_pkg facts "join" with Some p => ctor_goroutine p "New" | None => None end).
 
 (* ------------------------------------------------------------------------------------------------------------------------- *)
 (* Not a proof obligation, an inventory (printed at compile time): the potentially blocking operations reachable from the
